@@ -463,3 +463,31 @@ def c12():
 
 
 SPECS.update({"C11": c11, "C12": c12})
+
+
+def c04():
+    return dict(
+        id="C04", level="exploration", engine="rtrsim",
+        builds=[_sim_build()],
+        runs=[_sim_run("fuzz", 24000, 600000), _sim_run("defect", 3600, 54000), _sim_run("faults", 2048, 40960), _sim_run("conv", 1000, 20000)],
+        floors={"c04/streams_x_chunkings": T(90000, 2000000), "c04/post_exchange_probes": T(20000, 500000), "sim/response/defective": T(10000, 200000),
+                "sim/response/truncated": T(2000, 40000)},
+        rule=(SIM_RULE_COMMON + "fuzz: a structure-aware generator builds a well-formed answer (Cache Response, up to 24 prefix / router-key "
+              "PDUs, optional Error Report, End of Data) and applies 0-3 mutations: length field from {0,1,7,8,9,12,20,24,32,3247,3248,3249, "
+              "65535,65536,2^31-1,2^31,2^32-1, correct+-4}, type, version, flags / prefix length / max length / zero byte from "
+              "{0,1,2,31,32,33,127,128,129,254,255}, any payload byte, nested Error-Report lengths, session, duplicated PDU, truncation at "
+              "any byte, random 32-bit fields; 8% of the streams are pure random bytes. The stream is the first answer on an empty socket "
+              "(rtr_sync), the answer to a Serial Query after a genuine synchronisation, or arrives while the client idles "
+              "(rtr_wait_for_sync); the connection is then silent or closed, and one more poll follows. Oracles: (1) the process survives "
+              "ASan, the fatal UBSan subset and assertions - including a probe that enumerates both tables afterwards and validates a route "
+              "for every stored record, since hostile prefix lengths only bite when the trie is searched; (2) spin monitor on logical steps "
+              "(10000 transport calls without time advancing or input being consumed), wall-clock watchdog as backstop; (3) every stream "
+              "is replayed under 4 read segmentations (maximal, 1-byte, random, 3-byte) and the digest of (every byte the client sent, "
+              "state-callback sequence, final socket state and serial, contents of both tables) must be identical; (4) framing rule from "
+              "the reference validator: a PDU with length < 8, > 3248, inconsistent with its type, or of unknown type must make the "
+              "exchange fail with the tables unchanged. Distinct by outcome digest."),
+        assumptions=SIM_ASSUME + ["libFuzzer is not used: coverage comes from the structure-aware generator and the defect enumeration"],
+    )
+
+
+SPECS.update({"C04": c04})
